@@ -7,9 +7,13 @@ import (
 	"strings"
 
 	. "verifharness/tlib"
+	"verifharness/tr/c17facts"
 )
 
-func main() { Main() }
+func main() {
+	c17facts.RegisterRouteFacts() // the route-table theorems of C18 rest on the CanonicalPath fact too
+	Main()
+}
 
 func nows(s string) string { return strings.Join(strings.Fields(s), "") }
 
